@@ -87,13 +87,15 @@ store_harness!(c17_index_deindex_mirror_lmdb, {
 //@ unwindset: put_bytes=80; heed::bytes_=260; heed::Table=6; memcmp.0=70; repeat::Repeat=190; Repeat.*try_fold=190; mmap_append=200; read_hex=34; enc_tags=6
 //@ cbmc: --max-field-sensitivity-array-size 1100
 //@ encodes: EventStore::get_event_by_offset, Lmdb::deindex, Lmdb::deindex_id, Lmdb::get_offset_by_id, Lmdb::is_deleted (the three calls Store::remove_by_offset makes, composed by the harness in the same order: pocket's own wrapper is not evaluable by the symbolic executor, DESIGN.md 8.2 item 5)
-//@ bounds: two events of different authors (kind 1, no tags) with ARBITRARY created_at in 4096..=4351 each (earlier, equal, later) are in the store (seeded); the first is removed with get_event_by_offset + Lmdb::deindex + Lmdb::deindex_id in one committed transaction: afterwards its id has no index entry and no deletion marker, and the second event's id entry still leads to its own offset
-//@ outside: Store::remove_event / remove_by_offset themselves (their composition of these calls is read from lib.rs); tags; more than two events
+//@ bounds: two events of different authors (kind 1, no tags) are in the store (seeded): the one to be removed with an ARBITRARY created_at in 4096..=4351, the other created at 8208; the first is removed with get_event_by_offset + Lmdb::deindex + Lmdb::deindex_id in one committed transaction: afterwards its id has no index entry and no deletion marker, and the second event's id entry still leads to its own offset
+//@ outside: Store::remove_event / remove_by_offset themselves (their composition of these calls is read from lib.rs); tags; more than two events. Measured: did not finish in 900 s (one arbitrary time byte) / 1200 s (two) - INCONCLUSIVE so far; the one-event form of the same composition is evaluable in 91 s (DESIGN.md 8.2 item 5)
 store_harness!(c17_removal_parts_leave_other_event, {
     let store = verif_store();
+    // the removed event's time is arbitrary in one byte; the other event's time differs from it in a
+    // higher, concrete byte, so that comparisons between the two events' keys are decided before the
+    // arbitrary byte is reached (both times arbitrary did not finish in 1200 s)
     let l1: u8 = kani::any();
-    let l2: u8 = kani::any();
-    let (t1, t2) = (0x1000 + l1 as u64, 0x1000 + l2 as u64);
+    let (t1, t2) = (0x1000 + l1 as u64, 0x2010u64);
     let mut b1 = [0u8; 160];
     let n1 = enc_event_img(1, t1, &ID_A, &PK_1, &SIG_0, &[], b"", b"x", &mut b1);
     let mut b2 = [0u8; 160];
@@ -107,7 +109,7 @@ store_harness!(c17_removal_parts_leave_other_event, {
         ok!(store.indexes.deindex_id(&mut txn, ev.id()));
         ok!(txn.commit());
     }
-    kani::cover!(t1 == t2);
+    kani::cover!(l1 == 0xff);
     let txn = ok!(store.indexes.read_txn());
     assert!(ok!(store.indexes.get_offset_by_id(&txn, Id::from_bytes(ID_A))).is_none(), "the removed event still has an id entry");
     assert!(ok!(store.indexes.get_offset_by_id(&txn, Id::from_bytes(ID_B))) == Some(off2), "removing one event disturbed another event's id entry");
